@@ -17,6 +17,7 @@ import (
 
 	"verif/internal/evid"
 	"verif/internal/vt"
+	"verif/internal/world"
 )
 
 type c11Chart struct {
@@ -43,7 +44,11 @@ func (c *c11Chart) eff() string {
 
 const c11RejectSchema = `{"$schema":"http://json-schema.org/draft-07/schema#","type":"object","required":["this-key-is-never-set"]}`
 
-func (c *c11Chart) build() *chart.Chart {
+func (c *c11Chart) build() *chart.Chart { return c.buildFor(false) }
+
+// buildFor(true) is the variant installed for real into the simulated cluster: only crds/ files, values and
+// dependency declarations (the probe is not a Kubernetes object, and twins under two aliases would collide by name).
+func (c *c11Chart) buildFor(real bool) *chart.Chart {
 	ch := &chart.Chart{
 		Metadata: &chart.Metadata{APIVersion: "v2", Name: c.Name, Version: "1.0.0"},
 		Values:   deepCopyVal(c.Defaults).(map[string]interface{}),
@@ -56,6 +61,9 @@ func (c *c11Chart) build() *chart.Chart {
 	if c.Reject {
 		ch.Schema = []byte(c11RejectSchema)
 	}
+	if real {
+		ch.Templates, ch.Schema = nil, nil
+	}
 	for _, d := range c.Deps {
 		ch.Metadata.Dependencies = append(ch.Metadata.Dependencies, &chart.Dependency{Name: d.Name, Version: "1.0.0", Alias: d.Alias, Condition: d.Cond, Tags: d.Tags})
 	}
@@ -66,7 +74,7 @@ func (c *c11Chart) build() *chart.Chart {
 			continue
 		}
 		seen[d.Name] = true
-		ch.AddDependency(d.build())
+		ch.AddDependency(d.buildFor(real))
 	}
 	return ch
 }
@@ -314,6 +322,29 @@ func c11GenEnableRules(t *rapid.T, d *c11Chart, label string) {
 
 // ------------------------------------------------------------------ judge
 
+func c11Keys(m map[string]bool) []string {
+	var out []string
+	for k := range m {
+		out = append(out, k)
+	}
+	sort.Strings(out)
+	return out
+}
+
+// c11OrigName maps a rendered path (root, "charts", effective name, "charts", ...) to the chart's own name.
+func c11OrigName(root *c11Chart, parts []string) string {
+	cur := root
+	for i := 2; i < len(parts); i += 2 {
+		for _, d := range cur.Deps {
+			if d.eff() == parts[i] {
+				cur = d
+				break
+			}
+		}
+	}
+	return cur.Name
+}
+
 type c11Render struct {
 	probes map[string]string // template path -> values JSON
 	hooks  []string
@@ -471,6 +502,32 @@ func c11Judge(tb vt.TB, c c11Case) (lbls []string, nontrivial bool) {
 	if strings.Join(got.crds, ",") != strings.Join(wantCRDs, ",") {
 		vt.Violation(tb, "C11:crds-not-exactly-those-of-enabled-charts", fmt.Sprintf("crds %v\nexpected %v\n%s", got.crds, wantCRDs, detail()), c)
 		return lbls, false
+	}
+	// the same through a real install into the simulated cluster: the CRDs that reach the API server are those of
+	// enabled charts only (the dry-run above only shows what --include-crds prints)
+	{
+		w := world.New("memory")
+		res := w.Run(&world.Op{Kind: "install", DisableHooks: true, Values: deepCopyVal(c.User).(map[string]interface{}), ChartFn: func() *chart.Chart { return c.Root.buildFor(true) }})
+		if res.Panic != nil || res.Err != nil {
+			vt.Violation(tb, "C11:real-install-of-the-crds-only-tree-failed", fmt.Sprintf("panic=%v err=%v\n%s", res.Panic, res.Err, detail()), c)
+			return lbls, false
+		}
+		wantSet := map[string]bool{}
+		for _, p := range wantP {
+			parts := strings.Split(strings.TrimSuffix(p, "/templates/probe.yaml"), "/")
+			wantSet["crd-of-"+c11OrigName(c.Root, parts)] = true
+		}
+		gotSet := map[string]bool{}
+		for _, p := range w.Cluster.Paths() {
+			if i := strings.Index(p, "customresourcedefinitions/"); i >= 0 {
+				gotSet[p[i+len("customresourcedefinitions/"):]] = true
+			}
+		}
+		if fmt.Sprint(c11Keys(gotSet)) != fmt.Sprint(c11Keys(wantSet)) {
+			vt.Violation(tb, "C11:crds-sent-to-the-cluster-are-not-exactly-those-of-enabled-charts", fmt.Sprintf("created %v\nexpected %v\n%s", c11Keys(gotSet), c11Keys(wantSet), detail()), c)
+			return lbls, false
+		}
+		lbls = append(lbls, "real-install-crds-checked")
 	}
 	// values each chart sees; and, independently of the reference, no foreign non-global sentinel anywhere
 	for _, p := range wantP {
